@@ -27,6 +27,43 @@ type config struct {
 	RowMissDelay int    `json:"row_miss_delay"`
 	ReqInBuf     int    `json:"requester_in_buf"`
 	StallPct     int    `json:"requester_stall_pct"`
+	// address converters (as the MI300A builder uses them): this DRAM is element
+	// ConvIdx of ConvTotal memory controllers interleaved at ConvInter bytes
+	BankConv  bool   `json:"bank_address_converter"`
+	AddrConv  bool   `json:"address_converter"`
+	ConvTotal int    `json:"conv_total"`
+	ConvIdx   int    `json:"conv_idx"`
+	ConvInter uint64 `json:"conv_interleave"`
+}
+
+func (c config) converter() *mem.InterleavingConverter {
+	return &mem.InterleavingConverter{InterleavingSize: c.ConvInter, TotalNumOfElements: c.ConvTotal, CurrentElementIndex: c.ConvIdx}
+}
+
+// external maps an address of this controller's own (internal) address space
+// to the external address that belongs to this controller.
+func (c config) external(internal uint64) uint64 {
+	if !c.BankConv && !c.AddrConv {
+		return internal
+	}
+	round := c.ConvInter * uint64(c.ConvTotal)
+	return internal/c.ConvInter*round + uint64(c.ConvIdx)*c.ConvInter + internal%c.ConvInter
+}
+
+// bankAddr is the address the component uses for bank / row selection.
+func (c config) bankAddr(ext uint64) uint64 {
+	if c.BankConv || c.AddrConv {
+		return c.converter().ConvertExternalToInternal(ext)
+	}
+	return ext
+}
+
+// storageAddr is the address the component uses for its storage.
+func (c config) storageAddr(ext uint64) uint64 {
+	if c.AddrConv {
+		return c.converter().ConvertExternalToInternal(ext)
+	}
+	return ext
 }
 
 type op struct {
@@ -47,8 +84,9 @@ type scenario struct {
 func genConfig(r *vlib.PRNG, shipped bool) config {
 	if shipped {
 		// amd/samples/runner/timingconfig/mi300a/builder.go
-		return config{Banks: 16, Log2Inter: 6, Width: 1, Depth: 5, StageLat: 1 + r.Intn(2),
-			TopBuf: 16, PostBuf: 1, RowLog2: 11, RowMissDelay: 52, ReqInBuf: 4 + r.Intn(8), StallPct: r.Intn(30)}
+		return config{Banks: 16, Log2Inter: 6, Width: 1, Depth: 5, StageLat: 1,
+			TopBuf: 1024, PostBuf: 128, RowLog2: 11, RowMissDelay: 52, ReqInBuf: 4 + r.Intn(8), StallPct: r.Intn(30),
+			BankConv: true, ConvTotal: 16, ConvIdx: r.Intn(16), ConvInter: 4096}
 	}
 	c := config{
 		Banks:     []int{1, 2, 3, 4, 8, 16, 32}[r.Intn(7)],
@@ -64,6 +102,17 @@ func genConfig(r *vlib.PRNG, shipped bool) config {
 	if r.Chance(2, 3) {
 		c.RowLog2 = uint64(8 + r.Intn(6))
 		c.RowMissDelay = []int{0, 1, 3, 10, 52, 100}[r.Intn(6)]
+	}
+	switch r.Intn(4) {
+	case 0:
+		c.BankConv = true
+	case 1:
+		c.AddrConv = true
+	}
+	if c.BankConv || c.AddrConv {
+		c.ConvTotal = []int{1, 2, 4, 16}[r.Intn(4)]
+		c.ConvIdx = r.Intn(c.ConvTotal)
+		c.ConvInter = uint64(1) << (6 + r.Intn(7))
 	}
 	return c
 }
@@ -130,6 +179,7 @@ func genScenario(r *vlib.PRNG, idx int) scenario {
 			o.Gap = r.Intn(4)
 		}
 		o.Addr, o.Size = lineAlignedAccess(r, pickLine())
+		o.Addr = c.external(o.Addr)
 		o.Write = r.Chance(11, 20)
 		if o.Write {
 			o.Data = make([]byte, o.Size)
@@ -183,6 +233,7 @@ type arrival struct {
 }
 
 func rowOf(c config, addr uint64) (bank int, row uint64) {
+	addr = c.bankAddr(addr)
 	inter := uint64(1) << c.Log2Inter
 	blk := addr / inter
 	bank = int(blk % uint64(c.Banks))
@@ -203,6 +254,12 @@ func runScenario(rec vlib.Recorder, s scenario) {
 		WithNewStorage(1 << 30)
 	if c.RowLog2 > 0 {
 		b = b.WithRowBufferSizeLog2(c.RowLog2).WithRowMissDelay(c.RowMissDelay)
+	}
+	if c.BankConv {
+		b = b.WithBankAddressConverter(c.converter())
+	}
+	if c.AddrConv {
+		b = b.WithAddressConverter(c.converter())
 	}
 	dram := b.Build("DRAM")
 	top := dram.GetPortByName("Top")
@@ -367,7 +424,7 @@ func runScenario(rec vlib.Recorder, s scenario) {
 	}
 	// final storage
 	for ad, v := range model {
-		d, err := dram.Storage.Read(ad, 1)
+		d, err := dram.Storage.Read(c.storageAddr(ad), 1)
 		if err != nil || d[0] != v {
 			key := "C17|final-storage|" + classOf(c)
 			if rowEnabled {
